@@ -234,6 +234,18 @@ type c21Case struct {
 	cap   *c21Cap
 	// former: number of keys right after the n current voters that were authorities of the previous set only
 	former int
+	// multi-round scenarios (zz_verif_c21_rounds_test.go): this case object is ONE round of a Service that has
+	// already lived through the rounds listed in history; ref holds this round's votes only.
+	roundIx int
+	history []map[string]any
+	// behavioural mode: the service's vote maps are not compared with the reference after well-formed deliveries,
+	// so that a stale tally is judged by what the voter DOES with it (weights, precommit, finalisation)
+	lenient bool
+	// what run() observed
+	outcome  string // stopped | no-ghost | no-prevote-supermajority | not-finalised | finalise-error | finalised
+	ghostIdx int    // the service's pre-voted block (valid once a precommit was determined, else -1)
+	pcIdx    int    // the service's precommit target (else -1)
+	finIdx   int    // block finalised by attemptToFinalize (else -1)
 }
 
 type c21Cap struct {
@@ -246,6 +258,11 @@ func (k *c21Case) witness(extra map[string]any) map[string]any {
 		"set_id": k.setID, "deliveries": k.log, "prevotes": k.ref.describe(0), "precommits": k.ref.describe(1)}
 	if k.cap != nil {
 		w["pending_change"] = map[string]any{"announced_at_block": k.cap.Announce, "effective_number": k.cap.Eff}
+	}
+	if k.roundIx > 0 || len(k.history) > 0 || k.lenient {
+		w["round_index_on_this_service"] = k.roundIx
+		w["earlier_rounds_on_this_service"] = k.history
+		w["vote_maps_compared_after_each_vote"] = !k.lenient
 	}
 	for a, b := range extra {
 		w[a] = b
@@ -351,6 +368,9 @@ func (k *c21Case) deliver(d *c21Delivery) bool {
 		}
 		if wasEq {
 			c.Count("votes_of_known_equivocator", 1)
+		}
+		if k.lenient {
+			return true
 		}
 		if ok, why := after.matches(k.ref, k.keys); !ok {
 			c.Violation("tally-mismatch", "after a well-formed vote: "+why, k.witness(nil))
@@ -480,6 +500,7 @@ func (k *c21Case) run(prevotes, precommitsGen func() []*c21Delivery, ownPrevote 
 	c := k.c
 	svc := k.node.Service
 	thr := svc.state.threshold()
+	k.outcome, k.ghostIdx, k.pcIdx, k.finIdx = "stopped", -1, -1, -1
 
 	if ownPrevote >= 0 {
 		v := k.tree.Vote(ownPrevote)
@@ -516,6 +537,9 @@ func (k *c21Case) run(prevotes, precommitsGen func() []*c21Delivery, ownPrevote 
 		} else {
 			c.Count("no_ghost_no_supermajority", 1)
 		}
+		if !c.Failed() {
+			k.outcome = "no-ghost"
+		}
 		return
 	}
 	total, err := svc.getTotalVotesForBlock(pvb.Hash, prevote)
@@ -540,6 +564,7 @@ func (k *c21Case) run(prevotes, precommitsGen func() []*c21Delivery, ownPrevote 
 		if pvbIdx >= 0 && !k.ref.supermajority(0, pvbIdx) {
 			c.Count("fallback_lowered_threshold_answers", 1)
 		}
+		k.outcome = "no-prevote-supermajority"
 		return
 	}
 	c.Count("rounds_with_prevote_supermajority", 1)
@@ -643,6 +668,7 @@ func (k *c21Case) run(prevotes, precommitsGen func() []*c21Delivery, ownPrevote 
 		return
 	}
 	c.Count("precommit_ok", 1)
+	k.ghostIdx, k.pcIdx = ghost, want
 	c.Sample(map[string]any{"n": k.n, "tree": k.tree.Shape(), "head": k.head, "prevotes": k.ref.describe(0),
 		"ghost": ghost, "precommit": want})
 
@@ -669,12 +695,16 @@ func (k *c21Case) run(prevotes, precommitsGen func() []*c21Delivery, ownPrevote 
 		c.Count("attempt_to_finalize_errors", 1)
 		if len(calls) > 0 {
 			c.Violation("finalise-error-after-finalising", err.Error(), k.witness(nil))
+		} else {
+			k.outcome = "finalise-error"
 		}
 		return
 	}
 	if !fin {
 		if len(calls) > 0 {
 			c.Violation("finalised-but-reported-not", "SetFinalisedHash called but attemptToFinalize returned false", k.witness(nil))
+		} else {
+			k.outcome = "not-finalised"
 		}
 		if len(Spc) > 0 {
 			c.Count("not_finalised_although_possible", 1)
@@ -708,6 +738,7 @@ func (k *c21Case) run(prevotes, precommitsGen func() []*c21Delivery, ownPrevote 
 		c.Violation("finalised-wrong-round", fmt.Sprintf("%+v", calls[0]), fw)
 	default:
 		c.Count("finalised_ok", 1)
+		k.outcome, k.finIdx = "finalised", F
 		if F != k.head {
 			c.Count("finalised_above_head", 1)
 		}
@@ -1038,6 +1069,25 @@ func TestVerifC21(t *testing.T) {
 	corpus := c21Corpus()
 	r.Fixed("corpus", len(corpus), func(c *vcommon.Case) { c21RunFixed(c, corpus[c.Idx]) })
 	r.Cases("gen", r.Scale(1500), c21RunGenerated)
+
+	// several consecutive rounds on ONE Service (zz_verif_c21_rounds_test.go)
+	mc := c21MultiCorpus()
+	r.Floor("mr_corpus_rounds_as_planned", 2*c21MultiCorpusRounds())
+	for name, need := range map[string]int{
+		"mr_scenarios_completed": 400, "mr_scenarios_behavioural_mode": 150, "mr_scenarios_vote_maps_compared": 150,
+		"mr_later_rounds": 600, "mr_rounds_finalised_by_own_attempt": 400, "mr_rounds_closed_by_commit": 100,
+		"mr_rounds_abandoned": 15, "mr_round_jumps": 15,
+		"mr_rounds_after_a_round_with_precommit_equivocators": 200, "mr_rounds_after_a_round_with_prevote_equivocators": 200,
+		"mr_former_equivocator_votes_honestly": 300, "mr_former_equivocator_silent": 100,
+		"mr_later_round_precommit_weight_exactly_two_thirds_floor": 100, "mr_later_round_precommit_weight_minimal_supermajority": 150,
+		"mr_later_round_prevote_weight_exactly_two_thirds_floor": 80, "mr_later_round_prevote_weight_minimal_supermajority": 150,
+		"mr_precommit_verdict_would_flip_with_stale_equivocators": 20, "mr_precommit_verdict_would_flip_with_stale_votes": 20,
+		"mr_prevote_verdict_would_flip_with_stale_equivocators": 20, "mr_prevote_verdict_would_flip_with_stale_votes": 20,
+	} {
+		r.Floor(name, need)
+	}
+	r.Fixed("rounds-corpus", 2*len(mc), func(c *vcommon.Case) { c21RunMultiFixed(c, mc[c.Idx/2], c.Idx%2 == 1) })
+	r.Cases("rounds", r.Scale(450), c21RunMultiGenerated)
 }
 
 var _ = errors.Is
